@@ -297,6 +297,9 @@ def r7_write_only(ctx, p):
     closures (the buffer is written, sliced and measured, never loaded)."""
     from ..expr import resolve_upvars
     from .c06 import _operands
+    ctx.rule("C02-R8", "one frame period for the generator and its vocoder: Engine::generator hands condition.fperiod to SpeechGenerator::new and to Vocoder::new (the step count / stride and the samples written per frame are the same number); the clause C01-R1 decides, stated for C02")
+    from .c01 import fperiod_wiring
+    fperiod_wiring(ctx, p, "C02-R8")
     ctx.rule("C02-R7", "the output buffer is write-only: no statement of generate_step / Vocoder::synthesize (closures included) loads an element of the `&mut [f64]` output parameter - a chunk equals the one-shot waveform whatever the caller's buffer held before")
     n_bodies = 0
     n_out_stores = 0
